@@ -340,6 +340,17 @@ def main():
     except Exception as ex:            # the fingerprint tool itself failed: the tie is not established
         fp = {"ok": False, "error": str(ex), "changed": [], "new_items": [], "removed": [], "message": "source fingerprint failed: %s" % ex}
     fp_ok = bool(fp.get("ok"))
+    # extraction is validated, not only trusted: the same Gallina computations (inputs enumerated by a Gallina
+    # function, all 72 operations) evaluated by vm_compute in the kernel and by the extracted OCaml program
+    import xcheck
+    try:
+        xr = xcheck.run(sample=400 if tier == "quick" else 2000, seed=seed)
+    except Exception as ex:
+        xr = {"ok": False, "error": str(ex)}
+    if not xr.get("ok"):
+        path = write_replay(pid, "extraction", {"property": pid, "kind": "vm_compute and the extracted OCaml model disagree (or could not be run)",
+                                                "detail": {k: xr.get(k) for k in ("mismatches", "mismatch_count", "error", "cases")}})
+        violations.append((path, True))
     results = run_plan(plan, tier, seed, wd)
 
     if hasattr(plan, "cross_cfg"):
@@ -443,13 +454,16 @@ def main():
     ev = {
         "property_id": pid, "tier": tier, "seed": seed, "level": getattr(plan, "level", "proof"),
         "coverage": {
-            "obligations": len(pinfo["theorems"]) + len(results) + len(extras) + 1,
+            "obligations": len(pinfo["theorems"]) + len(results) + len(extras) + 2,
             "discharged": (len(pinfo["theorems"]) if proofs_ok else 0) + sum(1 for e in extras if e[1]) + (1 if fp_ok else 0) +
+                          (1 if xr.get("ok") else 0) +
                           sum(1 for r in results if "build_failed" not in r and not r["ofail"] and not r["cfail"]),
             "explanation": EXPLAIN.get(pid, "machine-checked theorems about the Gallina model (coq/Properties/%s.v) plus the checked "
                                             "correspondence between the extracted model and /repo's working tree" % pid),
             "extra_obligations": [{"what": e[0], "ok": e[1]} for e in extras],
             "translated_arithmetic": getattr(plan, "arith", None), "miri": getattr(plan, "miri", None), "api_surface": getattr(plan, "api", None),
+            "extraction_crosscheck": {k: xr.get(k) for k in ("ok", "cases", "mismatch_count", "constructors_covered",
+                                                              "constructors_total", "numbers_compared", "wall_s")},
             "source_fingerprint": {"ok": fp_ok, "functions_in_scope": fp.get("functions_in_scope"),
                                    "functions_total": fp.get("functions_total"), "changed": fp.get("changed"),
                                    "new_items": fp.get("new_items")},
